@@ -547,6 +547,10 @@ func (pConn *PFCPConn) handleSessionReportResponse(msg message.Message) error {
 		return errUnmarshal(errMsgUnexpectedType)
 	}
 
+	if srres.Cause == nil || len(srres.Cause.Payload) == 0 {
+		return errUnmarshal(errMandatoryIEMissing)
+	}
+
 	cause := srres.Cause.Payload[0]
 	if cause == ie.CauseRequestAccepted {
 		return nil
